@@ -53,7 +53,7 @@ InvRoundTrip == D.ok => LET e == ToCbor(Ty, D.x) IN e.ok /\ e.x = Item
 
 Expect ==
   IF WFd THEN [accept |-> TRUE, val |-> <<ValueOf(Ty, "", Item)>>, err |-> "", pinerr |-> FALSE, judge |-> TRUE, reenc |-> <<Enc(ToCbor(Ty, D.x).x)>>]
-  ELSE [accept |-> FALSE, val |-> <<>>, err |-> D.err, pinerr |-> FALSE, judge |-> TRUE]
+  ELSE [accept |-> FALSE, val |-> <<>>, err |-> D.err, diag |-> DiagOf(D), text |-> ErrText(D), pinerr |-> FALSE, judge |-> TRUE]
 Strat2 == LET S == <<"w1", "w2", "w4", "w8", "indef", "indef2">> IN S[(Len(Enc(Item)) % 6) + 1]
 Emit == PrintT(ToJson([kind |-> "decode", props |-> <<"C18">>, ty |-> Ty, reg |-> "", item |-> Item,
                        wires |-> <<Enc(Item), EncS(Item, Strat2)>>, expect |-> Expect]))
